@@ -177,8 +177,11 @@ def check(spec, res, labels=()):
         return
     # the file entry points (write_to_file / open) carry the same document as the string entry points (dump / fromstring)
     import tempfile, shutil
-    dd = tempfile.mkdtemp(prefix="c14_")
+    # (every spec within one deviation of a base, and a fixed sixteenth - by its labels - of the pairs of deviations)
+    dd = tempfile.mkdtemp(prefix="c14_") if (len(labels) <= 1 or sum(map(ord, "".join(labels))) % 16 == 0) else None
     try:
+        if dd is None:
+            raise StopIteration
         CommonRoadSolutionWriter(sol).write_to_file(output_path=dd, filename="s.xml", overwrite=True)
         fback = CommonRoadSolutionReader.open(os.path.join(dd, "s.xml"))
         res.transitions += 2
@@ -186,10 +189,13 @@ def check(spec, res, labels=()):
             res.violation("C14|file-entry-points|processor_name|differs-from-string-entry-points", f"{back.processor_name!r} -> {fback.processor_name!r}", case)
         elif CommonRoadSolutionWriter(fback).dump() != CommonRoadSolutionWriter(back).dump():
             res.violation("C14|file-entry-points|document|differs-from-string-entry-points", f"{labels}", case)
+    except StopIteration:
+        pass
     except Exception as e:
         res.violation(f"C14|file-entry-points|raises:{type(e).__name__}", f"{labels}: {e!r}", case)
     finally:
-        shutil.rmtree(dd, ignore_errors=True)
+        if dd is not None:
+            shutil.rmtree(dd, ignore_errors=True)
     if back.benchmark_id != sol.benchmark_id:
         res.violation("C14|benchmark_id|value-changed", f"{sol.benchmark_id} -> {back.benchmark_id}", case)
     if back.planning_problem_ids != [p["id"] for p in spec["pps"]]:
